@@ -395,7 +395,7 @@ func main() {
 		"HTML forests over 14 labels (link-bearing: a[href]+own label, a without href, img, img without alt, img without src, iframe, video; containers b,p,blockquote,ul,li,pre; text) with <=3 (quick) / <=4 (thorough) nodes, "+
 			"Markdown/gemtext/plaintext line sequences, x hosts {post, activity, actor} x attachment lists (<=2 / <=3 of 5 kinds on the <=2-node documents) x 8 widths; numbers parsed from String(width) are compared with SelectLink; "+
 			"SelectLink at min-int,-1,0,N+1,N+2,max-int; UI part: on one document per media type with two attachments, every k in 0..N+1 typed + Enter through the real ui.State with a real exec of the dump program, "+
-			"on a fresh page (also written with one and two leading zeros; one document has twelve links), after a cancelled number and command, while the viewer opened for number 1 / N is still running, and with a viewer that fails between the digits and Enter: the hook receives exactly SelectLink(k)'s target, nothing for k outside 1..N; distinct_nontrivial = cases with at least two numbered elements")
+			"on a fresh page (also written with one and two leading zeros; one document has twelve links), after a cancelled number and command, while the viewer opened for number 1 / N is still running, and with a viewer that fails between the digits and Enter: Markdown reference-style links with the same label in consecutive documents (20 rounds of 4 documents); the hook receives exactly SelectLink(k)'s target, nothing for k outside 1..N; distinct_nontrivial = cases with at least two numbered elements")
 	debug.SetGCPercent(800)
 	if *ev.FlagReplay != "" {
 		var d struct {
@@ -406,7 +406,13 @@ func main() {
 			Case uiCase `json:"case"`
 		}
 		ev.LoadReplay(*ev.FlagReplay, &u)
-		if u.Case.History != "" {
+		var rc struct {
+			Case refCase `json:"case"`
+		}
+		ev.LoadReplay(*ev.FlagReplay, &rc)
+		if rc.Case.RefLinks {
+			refLinksPart(r)
+		} else if u.Case.History != "" {
 			uiPart(r)
 		} else {
 			checkCase(r, d.Case)
@@ -514,6 +520,7 @@ func main() {
 		"a number is associated with the label text immediately preceding it once blanks and servitor's decoration glyphs are removed; every link-bearing element of the grammar has a unique label and target",
 		"the set of link-bearing elements of an HTML/Markdown document is read off an independent walk of the x/net/html parse tree (goldmark output for Markdown)",
 		"attachments in the judged alphabet have a usable target (href/url); attachments without one are not links")
+	refLinksPart(r)
 	uiPart(r)
 	r.Finish()
 }
